@@ -213,6 +213,7 @@ def run(ctx):
     return res
 
 
+PROMOTED = ("copy-count", "own-copy-footprint", "error-exit", "span-tags", "open-span-after")
 ATTRS = {(2, 1): "_captions", (2, 2): "_styles", (2, 3): "layout_info", (3, 1): "layout_info",
          (4, 1): "start", (4, 2): "end", (4, 3): "nodes", (4, 4): "style", (4, 5): "layout_info",
          (5, 1): "type_", (5, 2): "content", (5, 3): "start", (5, 4): "layout_info", (5, 5): "position"}
@@ -242,6 +243,10 @@ def heap_program_stream(histories, r, res):
         for d in C.compare(h, o, mp, r["pristine"], "C09"):
             d = dict(d)
             d["what"] = "heap program: " + d["what"]
+            if d.get("detail") in PROMOTED:
+                # audit (wave 7): the writer-specific content of the programs is tied to the code at ALARM level
+                d["what"] += " [effect summary: %s]" % d["detail"]
+                d["detail"] = None
             (details if d.get("detail") else r["disagreements"]).append((hi, d))
         if mp is None or ms is None:
             continue
@@ -256,6 +261,10 @@ def heap_program_stream(histories, r, res):
             assigned += 1 if any(x[0] < 1000 for x in b["fp"]) else 0
             raised += 1 if b["err"] else 0
             emitting += 1 if b["tokens"] else 0
+            if (op["kind"] == "sami" and not b["err"] and not (o[i].get("err") or 0) and "n_blank" in o[i]
+                    and b["tokens"].count(3) != o[i]["n_blank"]):
+                r["disagreements"].append((hi, {"i": i, "what": "heap program: SAMI blank syncs (&nbsp; paragraphs) in the output",
+                                                "model": b["tokens"].count(3), "impl": o[i]["n_blank"]}))
             for key in ("err", "copies", "changed_below", "tokens", "open"):
                 if a[key] != b[key]:
                     mm += 1
